@@ -220,9 +220,13 @@ impl Validation {
             return false;
         }
 
-        // Must be all digits, or start with - followed by digits
-        if let Some(digits) = index.strip_prefix('-') {
-            // Negative index: -1, -2, etc.
+        // Must be all digits, or start with - or ~ followed by digits
+        if let Some(digits) = index
+            .strip_prefix('-')
+            .or_else(|| index.strip_prefix('~'))
+        {
+            // Negative index: -1, -2, etc.; tilde index: ~1, ~2 (counting from the end),
+            // which the section overrides (--core ~1=v) already accept
             !digits.is_empty() && digits.chars().all(|c| c.is_ascii_digit())
         } else {
             // Positive index: 0, 1, 2, etc.
